@@ -4,7 +4,7 @@
    tuples), values outside the known classes of C05, without descriptors. *)
 From ZV Require Import Base.Bytes Base.Res Base.Sig Base.SigParse Base.Utf8 DBus.Val DBus.Spec DBus.Ser DBus.De DBus.SerFacts
   C05.Val C05.Spec C05.Model C05.DeModel C05.Classes C05.Facts C05.SigFacts C05.SerProofs C05.DeProofs C05.RtFacts.
-From ZV Require DBus.DeCompleteFacts.
+From ZV Require DBus.DeCompleteFacts DBus.SerProofs.
 From Coq Require Import Lia.
 Local Open Scope N_scope.
 
@@ -874,14 +874,18 @@ Section R.
     assert (Hgvb : gvb e (GStruct l) = data ++ framing (len data) (rev toffs)).
     { rewrite gvb_struct. fold sigs A ps.
       assert (Hsne : sigs <> []) by (subst sigs; destruct l; [congruence|discriminate]).
-      unfold tuple_bytes. destruct sigs eqn:Hsg; [congruence|]. rewrite <- Hsg in *. rewrite Hfx. reflexivity. }
+      assert (Htb : forall pss, tuple_bytes A sigs pss =
+                 if forallb gis_fixed sigs then concat pss ++ pad (len (concat pss)) A
+                 else concat pss ++ framing (len (concat pss)) (rev (tuple_offsets sigs (ends_from 0 pss)))).
+      { intros pss. unfold tuple_bytes. destruct sigs; [congruence|reflexivity]. }
+      rewrite Htb, Hfx. reflexivity. }
     rewrite Hgvb in *. set (k := N.of_nat (length toffs)).
     set (w := offset_width (len data) k).
     assert (Hw1 : 1 <= w) by apply offset_width_pos.
-    assert (HF : framing (len data) (rev toffs) = offs_enc w (rev toffs)).
+    assert (HFr : framing (len data) (rev toffs) = offs_enc w (rev toffs)).
     { unfold framing. rewrite rev_length. reflexivity. }
     assert (HlenF : len (framing (len data) (rev toffs)) = w * k).
-    { rewrite HF, len_offs_enc, rev_length. reflexivity. }
+    { rewrite HFr, len_offs_enc, rev_length. reflexivity. }
     assert (Hsm : len data + 8 * k <= 18446744073709551615).
     { rewrite len_app, HlenF in Hsmall. change (2 ^ 60) with 1152921504606846976 in Hsmall. nia. }
     set (p := padn (r_pos0 st + r_pos st) A).
@@ -903,15 +907,228 @@ Section R.
     destruct (struct_loop_var l HF Hlne f st2 (r_pos st + p) w 0 0 [] t A) as (st' & Hrun & Hp');
       subst st2; cbn [rset_dep adv r_e r_dep r_len r_pos r_pos0 r_rest]; try assumption; try reflexivity; try lia.
     - rewrite Hs', Ha', Ht'. assumption.
-    - unfold big. lia.
-    - cbn [adv r_pos0 r_pos] in Hal2. now rewrite <- N.add_assoc in Hal2 |- *.
     - intros x Hx. apply pow2_div; [apply galigns_pow2|apply galign_pow2|]. apply galigns_ge. subst sigs. now apply in_map.
     - fold ps sigs toffs. pose proof (tuple_offsets_le sigs ps 0) as Hle. fold toffs data in Hle. rewrite N.add_0_l in Hle.
       eapply Forall_impl; [|exact Hle]. cbn. intros o Ho. apply offset_fits; [exact Hsm|]. fold w. lia.
-    - fold ps sigs toffs data. rewrite Ht, HF. now rewrite <- app_assoc.
+    - fold ps sigs toffs data. rewrite Ht, HFr. now rewrite <- app_assoc.
     - fold ps sigs toffs data k. lia.
     - cbn [rset_dep adv r_len r_pos] in Hrun. unfold gde in Hrun. fold ps sigs toffs data k in Hrun.
-      replace (len data + w * k + (r_pos st + p)) with (r_pos st + p + len data + w * k) by lia.
+      replace (r_pos st + p + len data + w * k) with (r_len st) in Hrun by lia.
       rewrite Hrun. cbn [bind frev rev_append app]. exists st'. split; [reflexivity|exact Hp'].
   Qed.
+
+  (* ---------- variants ---------- *)
+  Lemma last_nul_app a : forall b i best, last_nul (a ++ b) i best = last_nul b (i + len a) (last_nul a i best).
+  Proof.
+    induction a as [|c a IH]; intros b i best; cbn [app last_nul]; [now rewrite len_nil, N.add_0_r|].
+    rewrite IH, len_cons. f_equal. lia.
+  Qed.
+  Lemma last_nul_nf b : forall i best, nul_free b = true -> last_nul b i best = best.
+  Proof.
+    induction b as [|c b IH]; intros i best H; [reflexivity|]. cbn [last_nul]. unfold nul_free in H. cbn [forallb] in H.
+    apply andb_true_iff in H as [H1 H2]. unfold is_zero. apply negb_true_iff in H1. rewrite H1. now apply IH.
+  Qed.
+  Lemma nul_free_removelast s : nul_free s = true -> nul_free (removelast s) = true.
+  Proof.
+    unfold nul_free. induction s as [|c [|c' s] IH]; intros H; try reflexivity.
+    cbn [removelast]. cbn [forallb] in *. apply andb_true_iff in H as [H1 H2]. rewrite H1. cbn [andb]. now apply IH.
+  Qed.
+  Lemma last_in {A} (l : list A) d : l <> [] -> In (last l d) l.
+  Proof.
+    induction l as [|c [|c' l'] IH]; intros H; [congruence|now left|]. right. apply IH. discriminate.
+  Qed.
+  Lemma strip_nul_ascii s : DeCompleteFacts.ascii_nz s = true -> strip_nul s = s.
+  Proof.
+    intros H. unfold strip_nul. destruct s as [|c s]; [reflexivity|].
+    assert (Hl : is_zero (last (c :: s) x01) = false).
+    { unfold DeCompleteFacts.ascii_nz in H. rewrite forallb_forall in H.
+      specialize (H _ (last_in (c :: s) x01 ltac:(discriminate))).
+      unfold DeCompleteFacts.ascii1 in H. apply andb_true_iff in H as [H _]. apply N.ltb_lt in H.
+      unfold is_zero. destruct (N.eqb_spec (bn (last (c :: s) x01)) 0) as [Hz|Hz]; [rewrite Hz in H; discriminate H|reflexivity]. }
+    now rewrite Hl.
+  Qed.
+
+  Lemma gsub_at st lo hi sh g d : r_pos st <= lo -> lo <= hi -> hi <= r_len st ->
+    gsub st lo hi sh g d =
+    Ok {| r_e := r_e st; r_pos0 := r_pos0 st + sh; r_base := dropN (lo - r_pos st) (r_rest st);
+          r_rest := dropN (lo - r_pos st) (r_rest st); r_pos := 0; r_len := hi - lo; r_sig := g; r_dep := d; r_fds := r_fds st |}.
+  Proof.
+    intros H1 H2 H3. unfold gsub. destruct (N.ltb_spec hi lo); [lia|]. destruct (N.ltb_spec (r_len st) hi); [lia|].
+    cbn [orb]. now rewrite from_idx_ge.
+  Qed.
+
+  Lemma str_run_nonul st s : r_sig st = SSig -> DeCompleteFacts.ascii_nz s = true -> holds st s ->
+    gde_str st = Ok (s, adv st (r_len st - r_pos st)).
+  Proof.
+    intros Hs Ha (t & Ht & Hb). unfold gde_str. rewrite Hs.
+    destruct (N.ltb_spec (r_len st) (r_pos st)); [lia|]. cbv zeta.
+    replace (r_len st - r_pos st) with (len s) by lia. rewrite Ht, takeN_app_len, (strip_nul_ascii s Ha).
+    rewrite (DeCompleteFacts.ascii_nul_free s Ha), (DeCompleteFacts.ascii_utf8 s Ha). reflexivity.
+  Qed.
+
+  Lemma parse_sig_stack_ok g : gsingle_ok g = true -> len (show g) <= stack_limit -> parse_sig_stack (show g) = Ok g.
+  Proof.
+    intros Hg Hl. unfold parse_sig_stack. pose proof (sig_nest_le (show g) 0 0 0) as Hn.
+    destruct (N.ltb_spec stack_limit (sig_nest (show g) 0 0 0)); [lia|]. now rewrite (parse_show_gv g Hg).
+  Qed.
+
+  Lemma last_nul_variant (V S : bytes) : S <> [] -> nul_free S = true ->
+    last_nul (removelast (V ++ [x00] ++ S)) 0 None = Some (len V).
+  Proof.
+    intros Hne Hnf. rewrite removelast_app by (destruct S; [congruence|discriminate]).
+    rewrite last_nul_app, N.add_0_l.
+    assert (Hrl : removelast ([x00] ++ S) = x00 :: removelast S) by (destruct S; [congruence|reflexivity]).
+    rewrite Hrl. cbn [last_nul]. change (is_zero x00) with true. cbv iota.
+    apply last_nul_nf. now apply nul_free_removelast.
+  Qed.
+
+  Lemma rt_variant x : rt x -> rt (GVariant x).
+  Proof.
+    intros IH fuel st Hfuel He Hw Hp Hr Hs Hd Hf Hl Hst. destruct fuel as [|f]; [cbn in Hfuel; lia|].
+    cbn [gheight] in Hfuel. cbn [gsig galign gvb] in *.
+    cbn [gwf] in Hw. apply andb_true_iff in Hw as [Hwx Hsx].
+    unfold pre in Hp. cbn [all_nodes] in Hp. apply andb_true_iff in Hp as [Hn Hpx]. fold (pre e x) in Hpx.
+    unfold rtok in Hr. cbn [all_nodes node_rt] in Hr. apply andb_true_iff in Hr as [Hlim Hrx]. fold (rtok x) in Hrx.
+    apply N.leb_le in Hlim.
+    unfold gfits in Hf. cbn [gdepth_ok] in Hf. apply andb_true_iff in Hf as [Hf1 Hf2]. apply N.leb_le in Hf1.
+    destruct (inc_variant_good _ Hd Hf1) as (d' & Hinc & Hd' & Hs' & Ha' & Ht').
+    set (S := show (gsig x)) in *. set (V := gvb e x) in *.
+    pose proof (DeCompleteFacts.ascii_show (gsig x)) as Hascii. fold S in Hascii.
+    assert (HSne : S <> []).
+    { subst S. destruct (gshow_head (gsig x) (gsingle_printable _ Hsx)) as (ch & t0 & Hh & _). rewrite Hh. discriminate. }
+    set (p := padn (r_pos0 st + r_pos st) 8).
+    unfold gde. cbn [gde_gen]. rewrite Hs.
+    rewrite (gparse_padding_starts st 8 _ (holds_starts _ _ Hst)). cbn [bind]. fold p.
+    apply holds_after_pad in Hst. fold p in Hst.
+    assert (Hal2 : (r_pos0 (adv st p) + r_pos (adv st p)) mod 8 = 0).
+    { cbn [adv r_pos0 r_pos]. rewrite N.add_assoc. subst p. apply padn_after. lia. }
+    rewrite (gparse_padding_aligned _ 8) by (lia || exact Hal2). cbn [bind].
+    destruct Hst as (t & Ht & Hb). cbn [adv r_pos r_rest r_len] in *.
+    rewrite !len_app in Hb. change (len [x00]) with 1 in Hb.
+    destruct (N.eqb_spec (r_len st) 0); [lia|]. destruct (N.ltb_spec (r_len st) (r_pos st + p)); [lia|].
+    (* the separator is the last nul before the final byte *)
+    assert (HW : takeN (r_len st - (r_pos st + p)) (dropN p (r_rest st)) = V ++ [x00] ++ S).
+    { replace (r_len st - (r_pos st + p)) with (len (V ++ [x00] ++ S)) by (rewrite !len_app; change (len [x00]) with 1; lia).
+      rewrite Ht. apply takeN_app_len. }
+    rewrite HW.
+    assert (Hnul : last_nul (removelast (V ++ [x00] ++ S)) 0 None = Some (len V)).
+    { apply last_nul_variant; [assumption|now apply DeCompleteFacts.ascii_nul_free]. }
+    rewrite Hnul.
+    (* stage Signature *)
+    change (r_dep (adv st p)) with (r_dep st).
+    rewrite (gsub_at (adv st p) (r_pos st + p + len V + 1) (r_len st) 0 SSig (r_dep st)); cbn [adv r_pos r_len r_rest]; try lia.
+    cbn [bind].
+    set (sst := {| r_e := r_e (adv st p); r_pos0 := r_pos0 (adv st p) + 0; r_base := _; r_rest := _; r_pos := 0; r_len := _;
+                   r_sig := SSig; r_dep := _; r_fds := _ |}).
+    assert (Hsst : holds sst S).
+    { exists t. subst sst. cbn [r_rest r_pos r_len adv]. replace (r_pos st + p + len V + 1 - (r_pos st + p)) with (len (V ++ [x00])) by (rewrite len_app; change (len [x00]) with 1; lia).
+      rewrite Ht. rewrite app_assoc, <- (app_assoc (V ++ [x00])), dropN_app_len. split; [reflexivity|lia]. }
+    rewrite (str_run_nonul sst S eq_refl Hascii Hsst). cbn [bind].
+    pose proof (parse_sig_stack_ok _ Hsx Hlim) as Hpss. fold S in Hpss.
+    rewrite Hpss. cbn [bind].
+    (* stage Value *)
+    rewrite from_idx_ge by (cbn [adv r_pos]; lia). cbn [adv r_pos r_rest].
+    replace (r_pos st + p + len V + 1 - (r_pos st + p)) with (len (V ++ [x00])) by (rewrite len_app; change (len [x00]) with 1; lia).
+    rewrite Ht. rewrite app_assoc, <- (app_assoc (V ++ [x00])), dropN_app_len.
+    replace (r_len st - (r_pos st + p + len V + 1)) with (len S) by lia. rewrite takeN_app_len.
+    rewrite Hpss. cbn [bind].
+    destruct (sub_starts (adv st p) (r_pos st + p + len V) (gsig x) (r_dep st) V)
+      as (sub & Hsub & Hss & Hs0 & Hsl & Hsp0 & Hse & Hssig & Hsdep & _); cbn [adv r_pos r_len r_rest]; try lia.
+    { exists ([x00] ++ S ++ t). rewrite Ht. now rewrite <- !app_assoc. }
+    cbn [adv r_pos r_len r_pos0 r_e r_dep] in *. rewrite Hsub. cbn [bind]. rewrite Hinc. cbn [bind].
+    assert (Hal3 : (r_pos0 st + (r_pos st + p)) mod galign (gsig x) = 0).
+    { cbn [adv r_pos0 r_pos] in Hal2. apply (mod_trans _ 8).
+      - lia.
+      - apply galign_nz.
+      - assumption.
+      - apply pow2_div; [unfold pow2; tauto|apply galign_pow2|].
+        destruct (galign_pow2 (gsig x)) as [Hq|[Hq|[Hq|Hq]]]; rewrite Hq; lia. }
+    destruct (IH f (rset_dep sub d')) as (sub' & Hdec1 & Hpos1); cbn [rset_dep r_e r_sig r_dep r_len r_pos r_pos0 r_rest]; try assumption; try lia.
+    - congruence.
+    - unfold gfits. rewrite Hs', Ha', Ht'. assumption.
+    - rewrite Hsp0, Hs0, N.add_0_r. rewrite (pad_aligned _ _ (galign_nz _) Hal3). cbn [app].
+      destruct Hss as (t2 & Ht2 & Hb2). exists t2. cbn [rset_dep r_rest r_pos r_len]. split; [assumption|]. rewrite Hs0, Hsl. subst V. lia.
+    - unfold gde in Hdec1. rewrite Hdec1. cbn [bind]. eexists. split; [reflexivity|]. cbn [adv r_pos]. lia.
+  Qed.
+
+  (* ---------- the round-trip theorem on the fragment ---------- *)
+  Theorem rt_all : forall v, rt v.
+  Proof.
+    induction v using gval_ind'.
+    - apply rt_of_fixed; reflexivity. - apply rt_of_fixed; reflexivity. - apply rt_of_fixed; reflexivity.
+    - apply rt_of_fixed; reflexivity. - apply rt_of_fixed; reflexivity. - apply rt_of_fixed; reflexivity.
+    - apply rt_of_fixed; reflexivity. - apply rt_of_fixed; reflexivity. - apply rt_of_fixed; reflexivity.
+    - apply rt_str. - apply rt_sigv. - apply rt_path. - now apply rt_variant.
+    - apply rt_of_fixed; reflexivity.
+    - destruct (gis_fixed el) eqn:Hfx; [now apply rt_array_fixed|now apply rt_array_var].
+    - (* dicts are outside the fragment *)
+      intros fuel st Hfuel He Hw Hp Hr. unfold rtok in Hr. cbn [all_nodes node_rt andb] in Hr. discriminate.
+    - destruct (forallb gis_fixed (map gsig l)) eqn:Hfx; [apply rt_of_fixed; exact Hfx|now apply rt_struct_var].
+    - apply rt_nothing. - now apply rt_just.
+  Qed.
 End R.
+
+(* ---------- fuel: a value within the nesting limits is at most 65 levels high ---------- *)
+Lemma gheights_le l n : Forall (fun x => (gheight x <= n)%nat) l -> (gheights l <= n)%nat.
+Proof. induction 1 as [|x r Hx Hr IH]; cbn [gheights]; lia. Qed.
+
+Lemma gheight_limit : forall v ds da dv, ds + da + dv <= 64 -> gdepth_ok ds da dv v = true ->
+  N.of_nat (gheight v) + ds + da + dv <= 65.
+Proof.
+  induction v using gval_ind'; intros ds da dv Hs Hd; try (cbn [gheight]; lia).
+  - cbn [gdepth_ok] in Hd. apply andb_true_iff in Hd as [H1 H2]. apply N.leb_le in H1.
+    specialize (IHv ds da (dv + 1) ltac:(lia) H2). cbn [gheight]. lia.
+  - cbn [gdepth_ok] in Hd. apply andb_true_iff in Hd as [Hd H3]. apply andb_true_iff in Hd as [H1 H2]. apply N.leb_le in H1, H2.
+    rewrite gheight_array.
+    assert (Hl : (gheights l <= N.to_nat (64 - ds - da - dv))%nat).
+    { apply gheights_le. rewrite Forall_forall in H. apply Forall_forall. intros x Hx.
+      rewrite forallb_forall in H3. specialize (H x Hx ds (da + 1) dv ltac:(lia) (H3 x Hx)). lia. }
+    lia.
+  - cbn [gdepth_ok] in Hd. apply andb_true_iff in Hd as [Hd H3]. apply andb_true_iff in Hd as [H1 H2]. apply N.leb_le in H1, H2.
+    assert (Hl : forall l0 : list (gval * gval), Forall (fun p => (forall ds da dv, ds + da + dv <= 64 -> gdepth_ok ds da dv (fst p) = true -> N.of_nat (gheight (fst p)) + ds + da + dv <= 65)
+                            /\ (forall ds da dv, ds + da + dv <= 64 -> gdepth_ok ds da dv (snd p) = true -> N.of_nat (gheight (snd p)) + ds + da + dv <= 65)) l0 ->
+                 forallb (fun p => gdepth_ok ds (da + 1) dv (fst p) && gdepth_ok ds (da + 1) dv (snd p)) l0 = true ->
+                 ((fix go (l1 : list (gval * gval)) : nat := match l1 with [] => 0%nat | (k, x) :: r => Nat.max (Nat.max (gheight k) (gheight x)) (go r) end) l0
+                  <= N.to_nat (64 - ds - da - dv))%nat).
+    { induction 1 as [|[k x] r [Hk Hx] Hr IH]; intros Hall; [lia|]. cbn [forallb fst snd] in *.
+      apply andb_true_iff in Hall as [Hkx Hall]. apply andb_true_iff in Hkx as [Hk1 Hx1].
+      specialize (Hk ds (da + 1) dv ltac:(lia) Hk1). specialize (Hx ds (da + 1) dv ltac:(lia) Hx1). specialize (IH Hall). lia. }
+    specialize (Hl l H H3). cbn [gheight]. lia.
+  - cbn [gdepth_ok] in Hd. apply andb_true_iff in Hd as [Hd H3]. apply andb_true_iff in Hd as [H1 H2]. apply N.leb_le in H1, H2.
+    rewrite gheight_struct.
+    assert (Hl : (gheights l <= N.to_nat (64 - ds - da - dv))%nat).
+    { apply gheights_le. rewrite Forall_forall in H. apply Forall_forall. intros x Hx.
+      rewrite forallb_forall in H3. specialize (H x Hx (ds + 1) da dv ltac:(lia) (H3 x Hx)). lia. }
+    lia.
+  - cbn [gdepth_ok] in Hd. apply andb_true_iff in Hd as [H1 H2]. apply N.leb_le in H1.
+    specialize (IHv ds da (dv + 1) ltac:(lia) H2). cbn [gheight]. lia.
+Qed.
+
+Lemma within_limits_fuel v : gwithin_limits v = true -> (gheight v <= 65)%nat.
+Proof. intros H. pose proof (gheight_limit v 0 0 0 ltac:(lia) H). lia. Qed.
+
+(* ---------- C02, GVariant half ---------- *)
+(* the value with its own signature: what the serializer writes is read back as the same value, consuming all of it *)
+Theorem gv_roundtrip_plain e pos v :
+  gwf v = true -> gwithin_limits v = true -> gplain v = true -> gsmall e v = true -> known_c05 e v = false -> rtok v = true ->
+  forall fuel, (65 <= fuel)%nat ->
+  exists b st', gser_top e pos (gsig v) (sval_of v) = Ok (b, []) /\
+                gde fuel (ginit_dst e pos (gsig v) b []) = Ok (v, st') /\ r_pos st' = len b.
+Proof.
+  intros Hw Hl Hp Hs Hk Hr fuel Hfuel.
+  exists (gv_marshal e pos v).
+  assert (Hser : gser_top e pos (gsig v) (sval_of v) = Ok (gv_marshal e pos v, [])).
+  { apply gser_top_exact. repeat split; assumption. }
+  pose proof (pre_split e v Hk Hs Hp) as Hpre.
+  destruct (rt_all e v fuel (ginit_dst e pos (gsig v) (gv_marshal e pos v) [])) as (st' & Hdec & Hpos); try assumption; try reflexivity.
+  - pose proof (within_limits_fuel v Hl). lia.
+  - split; cbn; lia.
+  - cbn [ginit_dst r_len]. pose proof (pre_node e v Hpre) as (_ & _ & _ & _ & Hsm).
+    unfold gv_marshal. rewrite (renum_plain v 0 Hp). rewrite len_app, len_pad.
+    assert (padn pos (galign (gsig v)) < galign (gsig v)) by (apply DBus.SerProofs.padn_spec, galign_nz).
+    destruct (galign_pow2 (gsig v)) as [Hq|[Hq|[Hq|Hq]]]; rewrite Hq in *; unfold big;
+      change (2 ^ 60) with 1152921504606846976 in Hsm; lia.
+  - unfold gv_marshal. rewrite (renum_plain v 0 Hp). exists []. cbn [ginit_dst r_rest r_pos r_len r_pos0].
+    rewrite N.add_0_r, app_nil_r. split; [reflexivity|lia].
+  - exists st'. repeat split; assumption.
+Qed.
